@@ -1,8 +1,1440 @@
-//! C18 dispatcher starts every accepted task exactly once — not built yet.
+//! C18 — the dispatcher starts every accepted task exactly once.
+//!
+//! Runtime monitor over the real `compio_dispatcher::Dispatcher`: every
+//! dispatched closure carries an id and records `Started{tid, worker index}` /
+//! `Finished` / `Dropped` into a per-task record (atomics, one global sequence
+//! counter), each worker thread carries a thread-local overlap gauge and a
+//! thread-local exit guard (logs "worker thread gone" from its TLS destructor),
+//! every receiver is inspected, and `join`'s outcome (Ok / io error / panic
+//! payload) is compared with what the workload did to the workers.
+//!
+//! A *case* = (workers, mode, driver, dispatching threads with their task
+//! lists and pacing, join point, fault). Cases are schedule dependent: the
+//! replay re-runs the same case many times.
 
-use vcommon::Args;
+use std::{
+    any::Any,
+    cell::{Cell, RefCell},
+    collections::{BTreeMap, BTreeSet},
+    future::Future,
+    num::NonZeroUsize,
+    panic::{AssertUnwindSafe, catch_unwind},
+    pin::Pin,
+    sync::{
+        Arc, Condvar, Mutex,
+        atomic::{AtomicBool, AtomicI32, AtomicU8, AtomicU32, AtomicU64, Ordering::SeqCst},
+        mpsc,
+    },
+    task::{Context, Poll, Wake, Waker},
+    time::{Duration, Instant},
+};
 
-pub fn main(_args: &Args) {
-    eprintln!("c18: not implemented");
-    std::process::exit(3);
+use compio_dispatcher::Dispatcher;
+use compio_driver::{DispatchError, DriverType, ProactorBuilder};
+use compio_io::{AsyncReadExt, AsyncWriteExt};
+use compio_runtime::Runtime;
+use futures_channel::oneshot;
+use vcommon::{Args, Report, Rng, Value, json};
+
+// ---------------------------------------------------------------------------
+// global sequence counter, thread ids
+// ---------------------------------------------------------------------------
+
+static SEQ: AtomicU64 = AtomicU64::new(1);
+
+fn seq() -> u64 {
+    SEQ.fetch_add(1, SeqCst)
+}
+
+fn gettid() -> u64 {
+    unsafe { libc::syscall(libc::SYS_gettid) as u64 }
+}
+
+// ---------------------------------------------------------------------------
+// panic payload markers and hook filter
+// ---------------------------------------------------------------------------
+
+/// A task body that panics (caught by the executor, must not hurt the worker).
+struct TaskPanic(#[allow(dead_code)] u32);
+
+/// A panic payload whose destructor panics: in sequential mode the worker
+/// loop drops the `JoinError::Panicked(payload)` inside the `block_on` future,
+/// so the worker thread itself dies with `BombBlast(id)` — the only way to
+/// make a *worker* panic with a payload the harness controls.
+struct Bomb(u32);
+
+struct BombBlast(u32);
+
+impl Drop for Bomb {
+    fn drop(&mut self) {
+        if !std::thread::panicking() {
+            std::panic::panic_any(BombBlast(self.0));
+        }
+    }
+}
+
+static EXPECT_BUILD_PANIC: AtomicBool = AtomicBool::new(false);
+static UNEXPECTED_PANICS: Mutex<Vec<(String, u32, String)>> = Mutex::new(Vec::new());
+
+fn install_filter_hook() {
+    let prev = std::panic::take_hook();
+    std::panic::set_hook(Box::new(move |info| {
+        let p = info.payload();
+        if p.is::<TaskPanic>() || p.is::<Bomb>() || p.is::<BombBlast>() {
+            return;
+        }
+        let msg = if let Some(s) = p.downcast_ref::<&str>() {
+            s.to_string()
+        } else if let Some(s) = p.downcast_ref::<String>() {
+            s.clone()
+        } else {
+            "<non-string>".into()
+        };
+        if EXPECT_BUILD_PANIC.load(SeqCst) && msg.contains("cannot create compio runtime") {
+            return;
+        }
+        let (f, l) = info
+            .location()
+            .map(|l| (l.file().to_string(), l.line()))
+            .unwrap_or_default();
+        if let Ok(mut v) = UNEXPECTED_PANICS.lock() {
+            if v.len() < 64 {
+                v.push((f, l, msg));
+            }
+        }
+        prev(info);
+    }));
+}
+
+// ---------------------------------------------------------------------------
+// case description
+// ---------------------------------------------------------------------------
+
+#[derive(Clone, Debug, PartialEq)]
+enum Body {
+    Imm,
+    Yield(u8),
+    Sleep(u8),
+    Pipe(u16),
+    Sub(u8),
+    Panic,
+    Bomb,
+    Blocking(u8),
+}
+
+impl Body {
+    fn enc(&self) -> String {
+        match self {
+            Body::Imm => "i".into(),
+            Body::Yield(k) => format!("y{k}"),
+            Body::Sleep(k) => format!("s{k}"),
+            Body::Pipe(k) => format!("p{k}"),
+            Body::Sub(k) => format!("u{k}"),
+            Body::Panic => "x".into(),
+            Body::Bomb => "b".into(),
+            Body::Blocking(k) => format!("k{k}"),
+        }
+    }
+
+    fn dec(s: &str) -> Option<Body> {
+        let (h, t) = s.split_at(1.min(s.len()));
+        let n = || t.parse::<u32>().ok();
+        Some(match h {
+            "i" => Body::Imm,
+            "y" => Body::Yield(n()? as u8),
+            "s" => Body::Sleep(n()? as u8),
+            "p" => Body::Pipe(n()? as u16),
+            "u" => Body::Sub(n()? as u8),
+            "x" => Body::Panic,
+            "b" => Body::Bomb,
+            "k" => Body::Blocking(n()? as u8),
+            _ => return None,
+        })
+    }
+
+    fn is_blocking(&self) -> bool {
+        matches!(self, Body::Blocking(_))
+    }
+}
+
+#[derive(Clone, Copy, Debug, PartialEq)]
+enum JoinPoint {
+    /// await every receiver, then join
+    Drained,
+    /// await a prefix of the receivers, then join
+    Partial,
+    /// join right after the last dispatch returned
+    Immediate,
+}
+
+#[derive(Clone, Debug)]
+struct Case {
+    workers: usize,
+    concurrent: bool,
+    /// 0 = io_uring, 1 = polling
+    driver: u8,
+    pool_limit: usize,
+    /// make every worker die while building its runtime
+    bad_proactor: bool,
+    /// pin one blocking "roll call" task on every worker first (full worker census)
+    rollcall: bool,
+    /// per dispatching thread: its task bodies
+    lists: Vec<Vec<Body>>,
+    /// per dispatching thread: 0 none, 1 yield between, 2 spin, 3 sometimes wait for the result
+    pace: Vec<u8>,
+    join: JoinPoint,
+    /// caller thread drives `join` inside a compio runtime (else a parking executor)
+    caller_rt: bool,
+}
+
+impl Case {
+    fn to_json(&self) -> Value {
+        json!({
+            "workers": self.workers, "concurrent": self.concurrent, "driver": self.driver,
+            "pool_limit": self.pool_limit, "bad_proactor": self.bad_proactor, "rollcall": self.rollcall,
+            "lists": self.lists.iter().map(|l| l.iter().map(|b| b.enc()).collect::<Vec<_>>().join(",")).collect::<Vec<_>>(),
+            "pace": self.pace,
+            "join": match self.join { JoinPoint::Drained => "drained", JoinPoint::Partial => "partial", JoinPoint::Immediate => "immediate" },
+            "caller_rt": self.caller_rt,
+        })
+    }
+
+    fn from_json(v: &Value) -> Option<Case> {
+        let lists = v["lists"]
+            .as_array()?
+            .iter()
+            .map(|l| {
+                let s = l.as_str().unwrap_or("");
+                if s.is_empty() {
+                    Some(vec![])
+                } else {
+                    s.split(',').map(Body::dec).collect::<Option<Vec<_>>>()
+                }
+            })
+            .collect::<Option<Vec<_>>>()?;
+        Some(Case {
+            workers: v["workers"].as_u64()? as usize,
+            concurrent: v["concurrent"].as_bool()?,
+            driver: v["driver"].as_u64()? as u8,
+            pool_limit: v["pool_limit"].as_u64()? as usize,
+            bad_proactor: v["bad_proactor"].as_bool()?,
+            rollcall: v["rollcall"].as_bool()?,
+            pace: v["pace"].as_array()?.iter().map(|x| x.as_u64().unwrap_or(0) as u8).collect(),
+            lists,
+            join: match v["join"].as_str()? {
+                "drained" => JoinPoint::Drained,
+                "partial" => JoinPoint::Partial,
+                _ => JoinPoint::Immediate,
+            },
+            caller_rt: v["caller_rt"].as_bool()?,
+        })
+    }
+
+    fn ntasks(&self) -> usize {
+        self.lists.iter().map(|l| l.len()).sum()
+    }
+}
+
+fn gen_case(rng: &mut Rng, big: bool) -> Case {
+    let workers = *rng.pick(&[1, 1, 2, 2, 3, 4, 5, 6, 7, 8]);
+    let concurrent = rng.chance(1, 2);
+    let ndisp = *rng.pick(&[1, 2, 2, 3, 4, 5, 6, 7, 8, 8]);
+    let total = if big {
+        rng.range(300, 2000)
+    } else {
+        match rng.below(8) {
+            0 => 0,
+            1 => rng.range(1, 4),
+            2..=5 => rng.range(4, 80),
+            _ => rng.range(60, 260),
+        }
+    };
+    let bad_proactor = rng.chance(1, 40);
+    // bombs kill workers; only meaningful in sequential mode (in concurrent
+    // mode the payload is dropped under the executor's abort-on-panic guard)
+    let bombs = !concurrent && !bad_proactor && rng.chance(1, 5);
+    // body profile
+    let profile = rng.below(6);
+    let mut lists: Vec<Vec<Body>> = vec![vec![]; ndisp];
+    for i in 0..total {
+        let b = match profile {
+            0 => Body::Imm,
+            1 => {
+                if rng.chance(1, 2) {
+                    Body::Imm
+                } else {
+                    Body::Yield(rng.range(1, 6) as u8)
+                }
+            }
+            _ => match rng.below(20) {
+                0..=5 => Body::Imm,
+                6..=9 => Body::Yield(rng.range(1, 8) as u8),
+                10..=11 => Body::Sleep(rng.range(0, 3) as u8),
+                12..=13 => Body::Pipe(*rng.pick(&[1u16, 7, 64, 500, 4096])),
+                14..=15 => Body::Sub(rng.range(1, 4) as u8),
+                16..=17 => Body::Panic,
+                18 => Body::Blocking(rng.range(0, 2) as u8),
+                _ => Body::Yield(1),
+            },
+        };
+        let b = if bombs && rng.chance(1, (total / (workers + 1)).max(2)) { Body::Bomb } else { b };
+        let d = if rng.chance(1, 6) { 0 } else { i % ndisp };
+        lists[d].push(b);
+    }
+    let pace = (0..ndisp).map(|_| rng.below(4) as u8).collect();
+    Case {
+        workers,
+        concurrent,
+        driver: rng.below(2) as u8,
+        pool_limit: *rng.pick(&[1, 2, 4, 256]),
+        bad_proactor,
+        // Only in sequential mode: there a worker has no receive pending while
+        // it runs a task. In concurrent mode the blocked worker still owns a
+        // registered flume waiter and may be the one that is woken for the
+        // next roll-call task (a thread-blocking body is the user's fault, not
+        // the dispatcher's), so the pinning trick does not apply.
+        rollcall: !bad_proactor && !concurrent && rng.chance(1, 2),
+        lists,
+        pace,
+        join: *rng.pick(&[JoinPoint::Drained, JoinPoint::Partial, JoinPoint::Immediate, JoinPoint::Immediate]),
+        caller_rt: rng.chance(2, 3),
+    }
+}
+
+// ---------------------------------------------------------------------------
+// per-task record and per-case context
+// ---------------------------------------------------------------------------
+
+type Tag = (u32, u64);
+
+const END_NONE: u8 = 0;
+const END_FINISHED: u8 = 1;
+const END_DROPPED: u8 = 2;
+const END_PANICKED: u8 = 3;
+
+struct Rec {
+    id: u32,
+    body: Body,
+    rollcall: bool,
+    nonce: u64,
+    call_seq: AtomicU64,
+    ret_seq: AtomicU64,
+    /// 0 not dispatched, 1 Ok, 2 Err
+    accepted: AtomicU8,
+    /// for Err: id reported by the closure that came back (u32::MAX = none)
+    returned_id: AtomicU32,
+    starts: AtomicU32,
+    start_seq: AtomicU64,
+    start_tid: AtomicU64,
+    /// worker index parsed from the thread name, -1 = not a worker thread of this case
+    start_widx: AtomicI32,
+    caller_tid: AtomicU64,
+    gauge_at_start: AtomicI32,
+    end_kind: AtomicU8,
+    end_seq: AtomicU64,
+    /// receiver outcome: 0 unknown, 1 Ok(own tag), 2 Ok(foreign tag), 3 Canceled, 4 still pending
+    rx_state: AtomicU8,
+    rx_seq: AtomicU64,
+    sync_wait_timeout: AtomicBool,
+}
+
+impl Rec {
+    fn new(id: u32, body: Body, rollcall: bool, nonce: u64) -> Self {
+        Rec {
+            id,
+            body,
+            rollcall,
+            nonce,
+            call_seq: AtomicU64::new(0),
+            ret_seq: AtomicU64::new(0),
+            accepted: AtomicU8::new(0),
+            returned_id: AtomicU32::new(u32::MAX),
+            starts: AtomicU32::new(0),
+            start_seq: AtomicU64::new(0),
+            start_tid: AtomicU64::new(0),
+            start_widx: AtomicI32::new(-1),
+            caller_tid: AtomicU64::new(0),
+            gauge_at_start: AtomicI32::new(0),
+            end_kind: AtomicU8::new(END_NONE),
+            end_seq: AtomicU64::new(0),
+            rx_state: AtomicU8::new(0),
+            rx_seq: AtomicU64::new(0),
+            sync_wait_timeout: AtomicBool::new(false),
+        }
+    }
+
+    fn tag(&self) -> Tag {
+        (self.id, self.nonce)
+    }
+
+    fn set_rx(&self, r: Result<Tag, oneshot::Canceled>) {
+        let st = match r {
+            Ok(t) if t == self.tag() => 1,
+            Ok(_) => 2,
+            Err(_) => 3,
+        };
+        self.rx_seq.store(seq(), SeqCst);
+        self.rx_state.store(st, SeqCst);
+    }
+}
+
+struct Ctx {
+    prefix: String,
+    sequential: bool,
+    exits: Mutex<Vec<(u64, u64)>>,
+    /// roll call: arrivals / release
+    roll: Mutex<usize>,
+    roll_cv: Condvar,
+    roll_need: usize,
+    roll_timeout: AtomicBool,
+}
+
+thread_local! {
+    static GAUGE: Cell<i32> = const { Cell::new(0) };
+    static EXIT: RefCell<Option<ExitGuard>> = const { RefCell::new(None) };
+    static INSPECT: Cell<bool> = const { Cell::new(false) };
+}
+
+struct ExitGuard {
+    ctx: Arc<Ctx>,
+    tid: u64,
+}
+
+impl Drop for ExitGuard {
+    fn drop(&mut self) {
+        if let Ok(mut e) = self.ctx.exits.lock() {
+            e.push((self.tid, seq()));
+        }
+    }
+}
+
+/// Lives inside the dispatched future from the moment the closure is called.
+struct RunGuard {
+    rec: Option<Arc<Rec>>,
+    counted: bool,
+}
+
+impl RunGuard {
+    fn finish(&mut self) -> Tag {
+        let rec = self.rec.take().expect("finish twice");
+        rec.end_seq.store(seq(), SeqCst);
+        rec.end_kind.store(END_FINISHED, SeqCst);
+        if self.counted {
+            GAUGE.with(|g| g.set(g.get() - 1));
+            self.counted = false;
+        }
+        rec.tag()
+    }
+}
+
+impl Drop for RunGuard {
+    fn drop(&mut self) {
+        if let Some(rec) = self.rec.take() {
+            rec.end_seq.store(seq(), SeqCst);
+            rec.end_kind.store(
+                if std::thread::panicking() { END_PANICKED } else { END_DROPPED },
+                SeqCst,
+            );
+        }
+        if self.counted {
+            GAUGE.with(|g| g.set(g.get() - 1));
+        }
+    }
+}
+
+fn on_start(rec: &Arc<Rec>, ctx: &Arc<Ctx>, gauge: bool) -> RunGuard {
+    if INSPECT.with(|i| i.get()) {
+        rec.returned_id.store(rec.id, SeqCst);
+        return RunGuard { rec: None, counted: false };
+    }
+    let s = seq();
+    let tid = gettid();
+    let n = rec.starts.fetch_add(1, SeqCst);
+    if n == 0 {
+        rec.start_seq.store(s, SeqCst);
+        rec.start_tid.store(tid, SeqCst);
+        let widx = std::thread::current()
+            .name()
+            .and_then(|n| n.strip_prefix(ctx.prefix.as_str()).and_then(|r| r.parse::<i32>().ok()))
+            .unwrap_or(-1);
+        rec.start_widx.store(widx, SeqCst);
+    }
+    let mut counted = false;
+    if gauge {
+        let g = GAUGE.with(|g| {
+            g.set(g.get() + 1);
+            g.get()
+        });
+        rec.gauge_at_start.store(g, SeqCst);
+        counted = true;
+        EXIT.with(|e| {
+            let mut e = e.borrow_mut();
+            if e.is_none() {
+                *e = Some(ExitGuard { ctx: ctx.clone(), tid });
+            }
+        });
+    }
+    RunGuard { rec: Some(rec.clone()), counted }
+}
+
+struct YieldNow(bool);
+
+impl Future for YieldNow {
+    type Output = ();
+
+    fn poll(mut self: Pin<&mut Self>, cx: &mut Context<'_>) -> Poll<()> {
+        if self.0 {
+            Poll::Ready(())
+        } else {
+            self.0 = true;
+            cx.waker().wake_by_ref();
+            Poll::Pending
+        }
+    }
+}
+
+async fn run_body(mut g: RunGuard, body: Body, rollcall: bool, ctx: Arc<Ctx>) -> Tag {
+    if g.rec.is_none() {
+        // inspection call by the harness: never polled
+        return (u32::MAX, 0);
+    }
+    let id = g.rec.as_ref().unwrap().id;
+    if rollcall {
+        // Block the whole worker thread until every worker has arrived.
+        let mut n = ctx.roll.lock().unwrap();
+        *n += 1;
+        ctx.roll_cv.notify_all();
+        let deadline = Instant::now() + Duration::from_secs(20);
+        while *n < ctx.roll_need {
+            let left = deadline.saturating_duration_since(Instant::now());
+            if left.is_zero() {
+                ctx.roll_timeout.store(true, SeqCst);
+                break;
+            }
+            n = ctx.roll_cv.wait_timeout(n, left).unwrap().0;
+        }
+        drop(n);
+        return g.finish();
+    }
+    match body {
+        Body::Imm | Body::Blocking(_) => {}
+        Body::Yield(k) => {
+            for _ in 0..k {
+                YieldNow(false).await;
+            }
+        }
+        Body::Sleep(ms) => {
+            compio_runtime::time::sleep(Duration::from_micros(ms as u64 * 700 + 50)).await;
+        }
+        Body::Pipe(n) => {
+            let n = n as usize;
+            let (mut rx, mut tx) = compio_fs::pipe::anonymous().await.expect("pipe");
+            let data: Vec<u8> = (0..n).map(|i| (i as u32 ^ id) as u8).collect();
+            let expect = data.clone();
+            let w = async move {
+                tx.write_all(data).await.0.expect("pipe write");
+            };
+            let r = async move {
+                let (_, buf) = rx.read_exact(Vec::with_capacity(n)).await.unwrap();
+                buf
+            };
+            let ((), got) = futures_util::join!(w, r);
+            assert!(got == expect, "pipe bytes differ");
+        }
+        Body::Sub(k) => {
+            let hs: Vec<_> = (0..k)
+                .map(|j| {
+                    compio_runtime::spawn(async move {
+                        YieldNow(false).await;
+                        id as u64 * 100 + j as u64
+                    })
+                })
+                .collect();
+            for (j, h) in hs.into_iter().enumerate() {
+                let v = h.await.expect("sub-task cancelled");
+                assert!(v == id as u64 * 100 + j as u64, "sub-task result differs");
+            }
+        }
+        Body::Panic => {
+            YieldNow(false).await;
+            std::panic::panic_any(TaskPanic(id));
+        }
+        Body::Bomb => {
+            std::panic::panic_any(Bomb(id));
+        }
+    }
+    g.finish()
+}
+
+// ---------------------------------------------------------------------------
+// tiny parking executor (for threads without a compio runtime)
+// ---------------------------------------------------------------------------
+
+struct Parker(std::thread::Thread, AtomicBool);
+
+impl Wake for Parker {
+    fn wake(self: Arc<Self>) {
+        self.1.store(true, SeqCst);
+        self.0.unpark();
+    }
+}
+
+fn block_on_deadline<F: Future>(f: F, deadline: Instant) -> Option<F::Output> {
+    let p = Arc::new(Parker(std::thread::current(), AtomicBool::new(false)));
+    let w = Waker::from(p.clone());
+    let mut cx = Context::from_waker(&w);
+    let mut f = std::pin::pin!(f);
+    loop {
+        if let Poll::Ready(v) = f.as_mut().poll(&mut cx) {
+            return Some(v);
+        }
+        while !p.1.swap(false, SeqCst) {
+            let left = deadline.saturating_duration_since(Instant::now());
+            if left.is_zero() {
+                return None;
+            }
+            std::thread::park_timeout(left.min(Duration::from_millis(50)));
+        }
+    }
+}
+
+// ---------------------------------------------------------------------------
+// running one case
+// ---------------------------------------------------------------------------
+
+#[derive(Debug, Clone, PartialEq)]
+enum JoinOut {
+    Ok,
+    IoErr(String),
+    Blast(u32),
+    PanicStr(String),
+    PanicTask,
+    PanicOther,
+    /// never called / build failed
+    NotRun,
+}
+
+struct Obs {
+    recs: Vec<Arc<Rec>>,
+    join_call: u64,
+    join_ret: u64,
+    join_out: JoinOut,
+    exits: Vec<(u64, u64)>,
+    roll_tids: BTreeSet<u64>,
+    census_late: u32,
+    census_stuck: Vec<String>,
+    harness_problem: Option<String>,
+    unexpected_panics: Vec<(String, u32, String)>,
+}
+
+fn classify_payload(p: Box<dyn Any + Send>) -> JoinOut {
+    if let Some(b) = p.downcast_ref::<BombBlast>() {
+        return JoinOut::Blast(b.0);
+    }
+    if p.is::<TaskPanic>() {
+        return JoinOut::PanicTask;
+    }
+    if p.is::<Bomb>() {
+        // do not run its destructor's panic here
+        std::mem::forget(p);
+        return JoinOut::PanicOther;
+    }
+    if let Some(s) = p.downcast_ref::<String>() {
+        return JoinOut::PanicStr(s.clone());
+    }
+    if let Some(s) = p.downcast_ref::<&str>() {
+        return JoinOut::PanicStr(s.to_string());
+    }
+    JoinOut::PanicOther
+}
+
+fn census(prefix: &str) -> Vec<String> {
+    let mut v = vec![];
+    if let Ok(rd) = std::fs::read_dir("/proc/self/task") {
+        for e in rd.flatten() {
+            let p = e.path();
+            if let Ok(comm) = std::fs::read_to_string(p.join("comm")) {
+                let comm = comm.trim();
+                if comm.starts_with(prefix) {
+                    // a task that is past user code (zombie / dead) does not count
+                    let st = std::fs::read_to_string(p.join("stat")).unwrap_or_default();
+                    let state = st.rsplit_once(") ").and_then(|x| x.1.chars().next()).unwrap_or('?');
+                    if state != 'Z' && state != 'X' && state != '?' {
+                        v.push(format!("{comm}:{state}"));
+                    }
+                }
+            }
+        }
+    }
+    v
+}
+
+fn dispatch_one(
+    disp: &Dispatcher,
+    rec: &Arc<Rec>,
+    ctx: &Arc<Ctx>,
+) -> Option<oneshot::Receiver<Tag>> {
+    rec.caller_tid.store(gettid(), SeqCst);
+    let body = rec.body.clone();
+    let rollcall = rec.rollcall;
+    rec.call_seq.store(seq(), SeqCst);
+    if body.is_blocking() {
+        let (r2, c2) = (rec.clone(), ctx.clone());
+        let ms = if let Body::Blocking(ms) = body { ms } else { 0 };
+        let res = disp.dispatch_blocking(move || {
+            let mut g = on_start(&r2, &c2, false);
+            if g.rec.is_none() {
+                return (u32::MAX, 0);
+            }
+            if ms > 0 {
+                std::thread::sleep(Duration::from_micros(ms as u64 * 500));
+            }
+            g.finish()
+        });
+        rec.ret_seq.store(seq(), SeqCst);
+        return match res {
+            Ok(rx) => {
+                rec.accepted.store(1, SeqCst);
+                Some(rx)
+            }
+            Err(DispatchError(f)) => {
+                rec.accepted.store(2, SeqCst);
+                INSPECT.with(|i| i.set(true));
+                let _ = f();
+                INSPECT.with(|i| i.set(false));
+                None
+            }
+        };
+    }
+    let (r2, c2) = (rec.clone(), ctx.clone());
+    let res = disp.dispatch(move || {
+        let g = on_start(&r2, &c2, true);
+        run_body(g, body, rollcall, c2)
+    });
+    rec.ret_seq.store(seq(), SeqCst);
+    match res {
+        Ok(rx) => {
+            rec.accepted.store(1, SeqCst);
+            Some(rx)
+        }
+        Err(DispatchError(f)) => {
+            rec.accepted.store(2, SeqCst);
+            INSPECT.with(|i| i.set(true));
+            drop(f());
+            INSPECT.with(|i| i.set(false));
+            None
+        }
+    }
+}
+
+static CASE_NO: AtomicU32 = AtomicU32::new(0);
+
+fn run_case(case: &Case, sched_seed: u64) -> Obs {
+    let case_no = CASE_NO.fetch_add(1, SeqCst) % 100_000;
+    let prefix = format!("v18w{case_no}-");
+    let ctx = Arc::new(Ctx {
+        prefix: prefix.clone(),
+        sequential: !case.concurrent,
+        exits: Mutex::new(vec![]),
+        roll: Mutex::new(0),
+        roll_cv: Condvar::new(),
+        roll_need: case.workers,
+        roll_timeout: AtomicBool::new(false),
+    });
+    let _ = ctx.sequential;
+    let mut rng = Rng::new(sched_seed);
+    // task records: roll call tasks first, then per-dispatcher lists
+    let mut recs: Vec<Arc<Rec>> = vec![];
+    let nroll = if case.rollcall { case.workers } else { 0 };
+    for _ in 0..nroll {
+        let id = recs.len() as u32;
+        recs.push(Arc::new(Rec::new(id, Body::Imm, true, rng.next_u64())));
+    }
+    let mut per_disp: Vec<Vec<Arc<Rec>>> = vec![];
+    for l in &case.lists {
+        let mut v = vec![];
+        for b in l {
+            let id = recs.len() as u32;
+            let r = Arc::new(Rec::new(id, b.clone(), false, rng.next_u64()));
+            recs.push(r.clone());
+            v.push(r);
+        }
+        per_disp.push(v);
+    }
+    let mut obs = Obs {
+        recs: recs.clone(),
+        join_call: 0,
+        join_ret: 0,
+        join_out: JoinOut::NotRun,
+        exits: vec![],
+        roll_tids: BTreeSet::new(),
+        census_late: 0,
+        census_stuck: vec![],
+        harness_problem: None,
+        unexpected_panics: vec![],
+    };
+    UNEXPECTED_PANICS.lock().unwrap().clear();
+    EXPECT_BUILD_PANIC.store(case.bad_proactor, SeqCst);
+
+    let mut pb = ProactorBuilder::new();
+    pb.driver_type(if case.driver == 0 { DriverType::IoUring } else { DriverType::Poll });
+    pb.thread_pool_limit(case.pool_limit);
+    pb.thread_pool_recv_timeout(Duration::from_millis(30));
+    if case.bad_proactor {
+        // io_uring_setup rejects more than 32768 entries: every worker fails to
+        // build its runtime and panics ("cannot create compio runtime")
+        pb.driver_type(DriverType::IoUring);
+        pb.capacity(1 << 24);
+    } else {
+        pb.capacity(*rng.pick(&[4u32, 64, 1024]));
+    }
+    let pfx = prefix.clone();
+    let disp = match Dispatcher::builder()
+        .worker_threads(NonZeroUsize::new(case.workers).unwrap())
+        .concurrent(case.concurrent)
+        .thread_names(move |i| format!("{pfx}{i}"))
+        .proactor_builder(pb)
+        .build()
+    {
+        Ok(d) => d,
+        Err(e) => {
+            obs.harness_problem = Some(format!("dispatcher build failed: {e}"));
+            return obs;
+        }
+    };
+
+    let watchdog = Instant::now() + Duration::from_secs(40);
+    let mut receivers: Vec<(Arc<Rec>, oneshot::Receiver<Tag>)> = vec![];
+
+    // roll call: one blocking task per worker, dispatched one at a time
+    for r in recs.iter().take(nroll) {
+        match dispatch_one(&disp, r, &ctx) {
+            Some(rx) => receivers.push((r.clone(), rx)),
+            None => {
+                obs.harness_problem = Some("roll call rejected".into());
+                break;
+            }
+        }
+        while r.starts.load(SeqCst) == 0 {
+            if Instant::now() > watchdog {
+                obs.harness_problem = Some("roll call: task not started in time".into());
+                break;
+            }
+            std::thread::yield_now();
+        }
+    }
+    if nroll > 0 && obs.harness_problem.is_none() {
+        // wait until the barrier released everyone
+        for r in recs.iter().take(nroll) {
+            while r.end_kind.load(SeqCst) == END_NONE && Instant::now() < watchdog {
+                std::thread::yield_now();
+            }
+            obs.roll_tids.insert(r.start_tid.load(SeqCst));
+        }
+        if ctx.roll_timeout.load(SeqCst) {
+            obs.harness_problem = Some("roll call barrier timed out".into());
+        }
+    }
+
+    // dispatching threads
+    let start_gate = Arc::new(std::sync::Barrier::new(per_disp.len()));
+    let got: Vec<Vec<(Arc<Rec>, oneshot::Receiver<Tag>)>> = std::thread::scope(|s| {
+        let hs: Vec<_> = per_disp
+            .iter()
+            .enumerate()
+            .map(|(di, list)| {
+                let disp = &disp;
+                let ctx = &ctx;
+                let gate = start_gate.clone();
+                let pace = case.pace.get(di).copied().unwrap_or(0);
+                let faulty = case.bad_proactor || case.lists.iter().flatten().any(|b| matches!(b, Body::Bomb));
+                let mut rng = rng.fork(di as u64 + 11);
+                s.spawn(move || {
+                    gate.wait();
+                    let mut mine = vec![];
+                    for r in list {
+                        match pace {
+                            1 => std::thread::yield_now(),
+                            2 => {
+                                for _ in 0..rng.below(400) {
+                                    std::hint::spin_loop();
+                                }
+                            }
+                            _ => {}
+                        }
+                        if let Some(mut rx) = dispatch_one(disp, r, ctx) {
+                            // (never wait when the workload kills workers: with every
+                            // worker dead an accepted task stays queued until join)
+                            if pace == 3 && rng.chance(1, 4) && !faulty {
+                                // wait for this result before going on
+                                match block_on_deadline(&mut rx, Instant::now() + Duration::from_secs(20)) {
+                                    Some(res) => r.set_rx(res),
+                                    None => {
+                                        r.sync_wait_timeout.store(true, SeqCst);
+                                        mine.push((r.clone(), rx));
+                                    }
+                                }
+                            } else {
+                                mine.push((r.clone(), rx));
+                            }
+                        }
+                    }
+                    mine
+                })
+            })
+            .collect();
+        hs.into_iter().map(|h| h.join().expect("dispatch thread panicked")).collect()
+    });
+    for g in got {
+        receivers.extend(g);
+    }
+    rng.shuffle(&mut receivers);
+
+    // join point
+    // With dead workers an accepted task stays queued until join: waiting for
+    // receivers first would wait forever (the statement only promises
+    // cancellation once joined), so faulty cases always join immediately.
+    let faulty = case.bad_proactor || case.lists.iter().flatten().any(|b| matches!(b, Body::Bomb));
+    let n_before = match if faulty { JoinPoint::Immediate } else { case.join } {
+        JoinPoint::Drained => receivers.len(),
+        JoinPoint::Partial => rng.below(receivers.len() + 1),
+        JoinPoint::Immediate => 0,
+    };
+    let mut rest = receivers.split_off(n_before);
+    let first = receivers;
+    let join_call = Arc::new(AtomicU64::new(0));
+    let join_ret = Arc::new(AtomicU64::new(0));
+    let (jc, jr) = (join_call.clone(), join_ret.clone());
+    let fut = async move {
+        for (r, rx) in first {
+            r.set_rx(rx.await);
+        }
+        jc.store(seq(), SeqCst);
+        let res = disp.join().await;
+        jr.store(seq(), SeqCst);
+        res
+    };
+    let res = catch_unwind(AssertUnwindSafe(|| {
+        if case.caller_rt {
+            match Runtime::new() {
+                Ok(rt) => Some(rt.block_on(fut)),
+                Err(_) => None,
+            }
+        } else {
+            block_on_deadline(fut, watchdog + Duration::from_secs(20))
+        }
+    }));
+    let after = seq();
+    obs.join_call = join_call.load(SeqCst);
+    obs.join_ret = match join_ret.load(SeqCst) {
+        0 => after,
+        v => v,
+    };
+    obs.join_out = match res {
+        Ok(Some(Ok(()))) => JoinOut::Ok,
+        Ok(Some(Err(e))) => JoinOut::IoErr(e.to_string()),
+        Ok(None) => {
+            obs.harness_problem = Some("caller runtime unavailable or join timed out".into());
+            JoinOut::NotRun
+        }
+        Err(p) => classify_payload(p),
+    };
+    EXPECT_BUILD_PANIC.store(false, SeqCst);
+
+    // thread census after join returned
+    if obs.join_out != JoinOut::NotRun {
+        let mut left = census(&prefix);
+        let mut tries = 0;
+        while !left.is_empty() && tries < 400 {
+            obs.census_late = obs.census_late.max(tries + 1);
+            std::thread::sleep(Duration::from_millis(2));
+            left = census(&prefix);
+            tries += 1;
+        }
+        obs.census_stuck = left;
+    }
+    obs.exits = ctx.exits.lock().unwrap().clone();
+
+    // remaining receivers: must be resolved by now (bounded polls); blocking
+    // tasks live on the pool, not on the workers: give them time
+    let (_c, w) = vcommon::task::count_waker();
+    for (r, rx) in rest.iter_mut() {
+        let mut st = None;
+        let polls = if r.body.is_blocking() { 4000 } else { 3 };
+        for i in 0..polls {
+            match vcommon::task::poll_once(rx, &w) {
+                Poll::Ready(v) => {
+                    st = Some(v);
+                    break;
+                }
+                Poll::Pending => {
+                    if i > 0 {
+                        std::thread::sleep(Duration::from_millis(if r.body.is_blocking() { 2 } else { 1 }));
+                    }
+                }
+            }
+        }
+        match st {
+            Some(v) => r.set_rx(v),
+            None => r.rx_state.store(4, SeqCst),
+        }
+    }
+    obs.unexpected_panics = UNEXPECTED_PANICS.lock().unwrap().clone();
+    obs
+}
+
+// ---------------------------------------------------------------------------
+// oracle
+// ---------------------------------------------------------------------------
+
+struct Finding {
+    sig: String,
+    what: String,
+}
+
+struct Verdicts {
+    findings: Vec<Finding>,
+    inconclusive: Vec<String>,
+    join_class: &'static str,
+    fault: &'static str,
+    cancelled_rx: usize,
+    rejected: usize,
+    worker_died: bool,
+}
+
+fn judge(case: &Case, obs: &Obs) -> Verdicts {
+    let mode = if case.concurrent { "concurrent" } else { "sequential" };
+    let mut f: Vec<Finding> = vec![];
+    let mut inc: Vec<String> = vec![];
+    let mut add = |sig: String, what: String| {
+        if !f.iter().any(|x: &Finding| x.sig == sig) {
+            f.push(Finding { sig, what });
+        }
+    };
+    if let Some(p) = &obs.harness_problem {
+        inc.push(format!("harness: {p}"));
+    }
+    let jr = obs.join_ret;
+    let jc = obs.join_call;
+
+    // which workers died, and why
+    let mut doomed: BTreeMap<i32, (u64, u32)> = BTreeMap::new(); // widx -> (start seq of the bomb, bomb id)
+    for r in &obs.recs {
+        if matches!(r.body, Body::Bomb) && r.starts.load(SeqCst) > 0 {
+            doomed.entry(r.start_widx.load(SeqCst)).or_insert((r.start_seq.load(SeqCst), r.id));
+        }
+    }
+    let all_dead_by_bomb = doomed.len() >= case.workers;
+    let worker_died = case.bad_proactor || !doomed.is_empty();
+    let fault = if case.bad_proactor {
+        "workers-fail-to-start"
+    } else if all_dead_by_bomb {
+        "all-workers-bombed"
+    } else if !doomed.is_empty() {
+        "some-workers-bombed"
+    } else {
+        "none"
+    };
+
+    let mut cancelled_rx = 0;
+    let mut rejected = 0;
+    let mut unstarted_at_join = 0;
+    let mut running_at_join = 0;
+    let joined = !matches!(obs.join_out, JoinOut::NotRun);
+
+    for r in &obs.recs {
+        let acc = r.accepted.load(SeqCst);
+        let starts = r.starts.load(SeqCst);
+        let blocking = r.body.is_blocking();
+        let kind = if blocking { "blocking" } else { "async" };
+        let end = r.end_kind.load(SeqCst);
+        let end_seq = r.end_seq.load(SeqCst);
+        let start_seq = r.start_seq.load(SeqCst);
+        if acc == 0 {
+            continue;
+        }
+        if starts > 1 {
+            add(
+                format!("C18/started-twice/{kind}/{mode}"),
+                format!("task {} ({}) was started {starts} times", r.id, r.body.enc()),
+            );
+        }
+        if acc == 2 {
+            rejected += 1;
+            if starts > 0 {
+                add(
+                    format!("C18/rejected-but-started/{kind}"),
+                    format!("dispatch of task {} returned Err(DispatchError) yet the closure ran", r.id),
+                );
+            }
+            let back = r.returned_id.load(SeqCst);
+            if back != r.id {
+                add(
+                    format!("C18/dispatch-err-returned-other-closure/{kind}"),
+                    format!("dispatch of task {} returned Err carrying a closure that identifies as {back}", r.id),
+                );
+            }
+            if !blocking {
+                // documented: Err only "if all threads have panicked"
+                let dead_before = doomed.values().filter(|(s, _)| *s < r.ret_seq.load(SeqCst)).count();
+                if !case.bad_proactor && dead_before < case.workers {
+                    add(
+                        format!("C18/dispatch-err-with-live-workers/{mode}"),
+                        format!(
+                            "dispatch of task {} returned Err although only {dead_before} of {} workers had been killed",
+                            r.id, case.workers
+                        ),
+                    );
+                }
+            }
+            continue;
+        }
+        // accepted
+        if starts > 0 {
+            let tid = r.start_tid.load(SeqCst);
+            if tid == r.caller_tid.load(SeqCst) {
+                add(
+                    format!("C18/started-on-caller-thread/{kind}"),
+                    format!("task {} ran on the thread that dispatched it", r.id),
+                );
+            }
+            if !blocking {
+                let widx = r.start_widx.load(SeqCst);
+                let known = !obs.roll_tids.is_empty();
+                if widx < 0 || widx as usize >= case.workers || (known && !obs.roll_tids.contains(&tid)) {
+                    add(
+                        format!("C18/started-off-worker/{mode}"),
+                        format!("task {} started on thread {tid} which is not a worker of this dispatcher", r.id),
+                    );
+                }
+            } else if r.start_widx.load(SeqCst) >= 0 {
+                add(
+                    "C18/blocking-task-on-worker-runtime".into(),
+                    format!("blocking task {} ran on an async worker thread", r.id),
+                );
+            }
+        }
+        if r.sync_wait_timeout.load(SeqCst) {
+            inc.push("a dispatching thread waited 20 s for a result while the dispatcher was alive (no verdict)".into());
+        }
+        // receiver
+        let rx = r.rx_state.load(SeqCst);
+        if rx == 3 {
+            cancelled_rx += 1;
+        }
+        match rx {
+            1 => {
+                if end != END_FINISHED {
+                    add(
+                        format!("C18/result-without-finish/{kind}"),
+                        format!("receiver of task {} yielded its tag although the body never finished", r.id),
+                    );
+                }
+            }
+            2 => add(
+                format!("C18/result-misdelivered/{kind}/{mode}"),
+                format!("receiver of task {} yielded another task's result", r.id),
+            ),
+            3 => {
+                if end == END_FINISHED && end_seq < r.rx_seq.load(SeqCst) {
+                    add(
+                        format!("C18/result-lost/{kind}/{mode}"),
+                        format!("task {} ran to completion but its receiver reports cancellation", r.id),
+                    );
+                }
+            }
+            4 => {
+                if blocking {
+                    inc.push("blocking task result not seen in time".into());
+                } else if joined && obs.census_stuck.is_empty() {
+                    add(
+                        format!("C18/receiver-hang-after-join/{mode}"),
+                        format!(
+                            "join returned and all workers are gone, yet the receiver of task {} ({}, starts={starts}, end={end}) is still pending",
+                            r.id,
+                            r.body.enc()
+                        ),
+                    );
+                } else {
+                    inc.push("receiver pending (not joined / wait timed out)".into());
+                }
+            }
+            _ => {}
+        }
+        if blocking || !joined {
+            continue;
+        }
+        if start_seq == 0 || start_seq > jc {
+            unstarted_at_join += 1;
+        } else if end == END_NONE || end_seq > jc {
+            running_at_join += 1;
+        }
+        if start_seq > jr && starts > 0 {
+            add(
+                format!("C18/started-after-join-returned/{mode}"),
+                format!("task {} started after join had returned", r.id),
+            );
+        }
+        if starts > 0 && (end == END_NONE || end_seq > jr) {
+            add(
+                format!("C18/task-alive-after-join-returned/{mode}"),
+                format!("task {} was still running (or never dropped) after join returned", r.id),
+            );
+        }
+        if starts == 0 {
+            // legitimate only if the workers died
+            let excused = case.bad_proactor || all_dead_by_bomb;
+            if !excused {
+                add(
+                    format!("C18/accepted-never-started/{mode}"),
+                    format!(
+                        "dispatch of task {} ({}) returned Ok, join returned, the closure was never called (receiver state {rx})",
+                        r.id,
+                        r.body.enc()
+                    ),
+                );
+            }
+        } else if !case.concurrent {
+            if r.gauge_at_start.load(SeqCst) > 1 {
+                add(
+                    "C18/sequential-overlap".into(),
+                    format!("task {} started while another dispatched task was live on the same worker", r.id),
+                );
+            }
+            if end == END_DROPPED {
+                add(
+                    "C18/sequential-unfinished-at-join".into(),
+                    format!("sequential mode: task {} ({}) was dropped unfinished", r.id, r.body.enc()),
+                );
+            }
+        }
+    }
+
+    // join outcome and worker exit
+    if joined {
+        for (tid, s) in &obs.exits {
+            if *s > jr {
+                add(
+                    format!("C18/join-before-worker-exit/{mode}"),
+                    format!("worker thread {tid} ran its thread-local destructors after join had returned"),
+                );
+            }
+        }
+        if !obs.census_stuck.is_empty() {
+            add(
+                format!("C18/join-before-worker-exit/census/{mode}"),
+                format!("worker threads still alive long after join returned: {:?}", obs.census_stuck),
+            );
+        }
+        // every worker that ran a task must have logged its exit
+        let ran: BTreeSet<u64> = obs
+            .recs
+            .iter()
+            .filter(|r| !r.body.is_blocking() && r.starts.load(SeqCst) > 0)
+            .map(|r| r.start_tid.load(SeqCst))
+            .collect();
+        let exited: BTreeSet<u64> = obs.exits.iter().map(|x| x.0).collect();
+        if let Some(t) = ran.difference(&exited).next() {
+            add(
+                format!("C18/join-before-worker-exit/no-exit-event/{mode}"),
+                format!("worker thread {t} ran tasks but had not finished exiting when join returned"),
+            );
+        }
+        match (&obs.join_out, worker_died) {
+            (JoinOut::Ok, false) => {}
+            (JoinOut::Ok, true) | (JoinOut::IoErr(_), true) => add(
+                format!("C18/join-swallowed-worker-panic/{fault}"),
+                format!("a worker thread panicked ({fault}) but join returned {:?}", obs.join_out),
+            ),
+            (JoinOut::IoErr(e), false) => add(
+                format!("C18/join-io-error/{mode}"),
+                format!("join returned an io error without any fault: {e}"),
+            ),
+            (JoinOut::Blast(id), _) => {
+                // the first panicked worker in thread order is resumed
+                let want = doomed.iter().next().map(|(_, (_, id))| *id);
+                if want != Some(*id) {
+                    add(
+                        "C18/join-wrong-panic-payload".into(),
+                        format!("join resumed the panic of bomb {id}, expected {want:?} (lowest-index dead worker)"),
+                    );
+                }
+            }
+            (JoinOut::PanicStr(s), _) => {
+                if !(case.bad_proactor && s.contains("cannot create compio runtime")) {
+                    let from_repo = obs.unexpected_panics.iter().find(|p| p.0.contains("/repo/") || p.0.starts_with("compio"));
+                    match from_repo {
+                        Some((file, _, msg)) => add(
+                            format!("C18/panic@{}", file.trim_start_matches("/repo/")),
+                            format!("a worker panicked inside compio: {msg}"),
+                        ),
+                        None => inc.push(format!("join re-raised an unexpected panic: {s}")),
+                    }
+                }
+            }
+            (JoinOut::PanicTask, _) => add(
+                format!("C18/task-panic-killed-worker/{mode}"),
+                "a panicking task body took its worker thread down (join re-raised the task's payload)".into(),
+            ),
+            (JoinOut::PanicOther, _) => inc.push("join re-raised an unknown payload".into()),
+            (JoinOut::NotRun, _) => {}
+        }
+        if case.bad_proactor && !matches!(obs.join_out, JoinOut::PanicStr(_)) && !matches!(obs.join_out, JoinOut::Ok | JoinOut::IoErr(_)) {
+            add(
+                "C18/join-wrong-panic-payload/start-failure".into(),
+                format!("workers failed to start but join ended with {:?}", obs.join_out),
+            );
+        }
+    }
+    for (file, line, msg) in &obs.unexpected_panics {
+        if file.contains("/repo/") && !msg.contains("cannot create compio runtime") {
+            add(
+                format!("C18/panic@{}", file.trim_start_matches("/repo/")),
+                format!("panic inside compio at {file}:{line}: {msg}"),
+            );
+        } else if !file.contains("/repo/") {
+            inc.push(format!("harness panic at {file}:{line}: {msg}"));
+        }
+    }
+
+    let join_class = if !joined {
+        "not-joined"
+    } else if unstarted_at_join > 0 {
+        "join-with-unstarted"
+    } else if running_at_join > 0 {
+        "join-with-running"
+    } else {
+        "join-after-drain"
+    };
+    Verdicts { findings: f, inconclusive: inc, join_class, fault, cancelled_rx, rejected, worker_died }
+}
+
+// ---------------------------------------------------------------------------
+// driver
+// ---------------------------------------------------------------------------
+
+fn run_with_watchdog(case: &Case, sched_seed: u64) -> Option<Obs> {
+    let (tx, rx) = mpsc::channel();
+    let c = case.clone();
+    std::thread::Builder::new()
+        .name("v18-case".into())
+        .spawn(move || {
+            let o = run_case(&c, sched_seed);
+            let _ = tx.send(o);
+        })
+        .ok()?;
+    rx.recv_timeout(Duration::from_secs(120)).ok()
+}
+
+fn bucket(n: usize) -> &'static str {
+    match n {
+        0 => "0",
+        1..=4 => "1-4",
+        5..=80 => "5-80",
+        81..=300 => "81-300",
+        _ => ">300",
+    }
+}
+
+/// Evaluate one case; returns false if the process should stop (watchdog).
+fn eval_case(rep: &mut Report, case: &Case, sched_seed: u64) -> (bool, bool) {
+    let Some(obs) = run_with_watchdog(case, sched_seed) else {
+        rep.inconclusive("watchdog: case did not finish in 120 s (no verdict)");
+        rep.note(format!("watchdog: sched_seed {sched_seed}; case {}", case.to_json()));
+        if std::env::var_os("C18_HANG_PAUSE").is_some() {
+            eprintln!("c18: watchdog fired, pid {} pausing for inspection", std::process::id());
+            std::thread::sleep(Duration::from_secs(600));
+        }
+        return (false, false);
+    };
+    let v = judge(case, &obs);
+    let mode = if case.concurrent { "con" } else { "seq" };
+    let ndisp = case.lists.len();
+    let nontrivial = ndisp >= 2 || v.join_class != "join-after-drain";
+    let sig = format!(
+        "w{}/{}/d{}/{}/fault={}/n={}",
+        case.workers,
+        mode,
+        ndisp,
+        v.join_class,
+        v.fault,
+        bucket(case.ntasks())
+    );
+    rep.eval(nontrivial.then_some(sig.clone()));
+    rep.count("tasks_dispatched", obs.recs.iter().filter(|r| r.accepted.load(SeqCst) != 0).count() as i64);
+    rep.count("tasks_started", obs.recs.iter().filter(|r| r.starts.load(SeqCst) > 0).count() as i64);
+    rep.count("receivers_cancelled", v.cancelled_rx as i64);
+    rep.count("dispatch_rejected", v.rejected as i64);
+    rep.count("census_late_reaps", (obs.census_late > 0) as i64);
+    rep.max("workers", case.workers as i64);
+    rep.max("dispatchers", ndisp as i64);
+    rep.max("tasks_per_case", case.ntasks() as i64);
+    rep.floor("saw-join-with-unstarted-tasks", v.join_class == "join-with-unstarted");
+    rep.floor("saw-join-with-running-tasks", v.join_class == "join-with-running");
+    rep.floor("saw-cancelled-receiver", v.cancelled_rx > 0);
+    rep.floor("saw-worker-panic-resumed-by-join", v.worker_died && matches!(obs.join_out, JoinOut::Blast(_) | JoinOut::PanicStr(_)));
+    rep.floor("saw-dispatch-err", v.rejected > 0);
+    rep.floor("saw-sequential", !case.concurrent);
+    rep.floor("saw-concurrent", case.concurrent);
+    rep.floor("saw-8-dispatchers", ndisp >= 8);
+    rep.floor("saw-rollcall-census", !obs.roll_tids.is_empty());
+    if rep.want_sample() && nontrivial {
+        rep.sample(json!({"signature": sig, "case": case.to_json(), "join": format!("{:?}", obs.join_out)}));
+    }
+    for i in &v.inconclusive {
+        rep.inconclusive(i);
+        let mut c = case.to_json().to_string();
+        c.truncate(700);
+        rep.note(format!("inconclusive: {i}; sched_seed {sched_seed}; case {c}"));
+    }
+    let violated = !v.findings.is_empty();
+    for fd in v.findings {
+        rep.violation(&fd.sig, &fd.what, json!({"case": case.to_json(), "sched_seed": sched_seed, "reps": 300}));
+    }
+    (true, violated)
+}
+
+pub fn main(args: &Args) {
+    install_filter_hook();
+    let leg = args.str("leg", "plain");
+    let mut rep = Report::from_args("C18", &leg, args);
+    rep.set_exhaustive(false);
+
+    if let Some(path) = args.get("replay") {
+        let txt = std::fs::read_to_string(path).unwrap_or_default();
+        let v: Value = vcommon::serde_json::from_str(&txt).unwrap_or(Value::Null);
+        let prog = &v["program"];
+        match Case::from_json(&prog["case"]) {
+            Some(case) => {
+                let reps = args.usize("reps", prog["reps"].as_u64().unwrap_or(300) as usize);
+                let s0 = prog["sched_seed"].as_u64().unwrap_or(1);
+                for i in 0..reps {
+                    let (go, violated) = eval_case(&mut rep, &case, s0.wrapping_add(i as u64));
+                    if !go || violated || rep.out_of_time() {
+                        break;
+                    }
+                }
+            }
+            None => rep.inconclusive("replay file has no usable program"),
+        }
+        rep.finish();
+        return;
+    }
+
+    let mut rng = Rng::new(args.seed()).fork(args.shard() + 1);
+    let iters = args.iters(150, 1500);
+    let big_every = args.usize("big-every", 12);
+    for i in 0..iters {
+        if rep.out_of_time() {
+            break;
+        }
+        let big = big_every > 0 && i % big_every == big_every - 1;
+        let case = gen_case(&mut rng, big);
+        let s = rng.next_u64();
+        let (go, _) = eval_case(&mut rep, &case, s);
+        if !go {
+            break;
+        }
+    }
+    rep.finish();
 }
